@@ -271,4 +271,21 @@ META["C10"] = {
     "b_timeout": 400,
 }
 
+META["C04"] = {
+    "level": "exploration",
+    "level_text": "Bounded contract check on the real operators with lambdas compiled from a "
+    "generated source module: ~150 lambdas whose free names resolve to module globals of every "
+    "transportable type, closure cells (two levels), nested class attributes and module attributes, "
+    "in 14 binder contexts (nested lambdas, comprehensions, called lambdas, parameters shadowing "
+    "globals to depth 3); after all streams are built every captured name is rebound / deleted / "
+    "mutated and the emitted lambda is evaluated with the reference semantics against what the "
+    "callable returned at the call; non-transportable captures must raise ValueError.",
+    "level_note": "Bounded stand-in. inspect.getclosurevars and source recovery are unmodelled "
+    "externals; enum members are not covered.",
+    "technique": "bounded contract check of the capture-by-value contract on generated source modules, oracle = the callable itself at call time (labelled stand-in)",
+    "p_keys": False,
+    "explanation": "bounded only",
+    "assumptions": ["one post-call history (everything rebound/deleted/mutated)"],
+}
+
 NOT_APPLICABLE = {}
